@@ -102,7 +102,7 @@ def fp_outer(v, old, le_):
     sg, h = v.self.subgraph, v.h
     n = length(sg.nodes)
     return fp_common(v, old) + [
-        ("phase", disj(conj(eq(h.last, 0), eq(h.p[0], 0), eq(h.color[0], GRAY),
+        ("phase", disj(conj(eq(h.last, 0), eq(h.color[0], GRAY),
                             forall(0, n, lambda x: implies(ne(x, 0), eq(h.color[x], WHITE)))),
                        conj(eq(h.color[0], BLACK), forall(0, n, lambda x: ne(h.color[x], WHITE))))),
     ]
@@ -283,7 +283,9 @@ def fit_ensures(v, old, result, semi=False):
         ("c_perm", conj(eq(length(ordl), n),
                         forall(0, n, lambda r: conj(le(0, ordl[r]), lt(ordl[r], n))),
                         forall(0, n, lambda r, s: implies(ne(r, s), ne(ordl[r], ordl[s]))),
-                        forall(0, n, lambda x: exists(0, n, lambda r: eq(ordl[r], x))))),
+                        # (the redundant cost equation only provides a trigger term for x)
+                        forall(0, n, lambda x: exists(0, n, lambda r: conj(eq(ordl[r], x),
+                                                                           eq(N[ordl[r]].cost, N[x].cost)))))),
         ("c_sorted", forall(0, n, lambda r, s: implies(lt(r, s), le(N[ordl[r]].cost, N[ordl[s]].cost)))),
         ("costs_range", forall(0, n, lambda x: conj(le(0, N[x].cost), lt(N[x].cost, FLOAT_MAX)))),
         ("plabel_nonneg", forall(0, n, lambda x: ge(N[x].predicted_label, 0))),
@@ -298,8 +300,14 @@ contract(S + "fit",
          modifies=["self.subgraph"],
          hints=[("after:loop1", lambda v, old: [
              ("no_gray", forall(0, length(v.self.subgraph.nodes), lambda x: ne(v.h.color[x], GRAY))),
-             ("all_black", forall(0, length(v.self.subgraph.nodes), lambda x: eq(v.h.color[x], BLACK)))])],
-         lemmas=[("after:loop1", "inj_card", lambda v: {"f": v.self.subgraph.idx_nodes, "g": v.g_rank,
+             ("all_black", forall(0, length(v.self.subgraph.nodes), lambda x: eq(v.h.color[x], BLACK))),
+             ("rank_inverse", forall(0, length(v.self.subgraph.nodes),
+                                     lambda x: conj(le(0, v.g_rank[x]), lt(v.g_rank[x], length(v.self.subgraph.idx_nodes)),
+                                                    eq(v.self.subgraph.idx_nodes[v.g_rank[x]], x)),
+                                     pats=lambda x: [v.g_rank[x], v.self.subgraph.nodes[x].cost]))])],
+         lemmas=[("before:h.cost[i] = 0", "cost_write", lambda v: {"h": v.h, "x": v.i}),
+                 ("before:h.cost[i] = c.FLOAT_MAX", "cost_write", lambda v: {"h": v.h, "x": v.i}),
+                 ("after:loop1", "inj_card", lambda v: {"f": v.self.subgraph.idx_nodes, "g": v.g_rank,
                                                        "a": length(v.self.subgraph.idx_nodes),
                                                        "b": length(v.self.subgraph.nodes)}),
                  ("after:loop1", "inj_card", lambda v: {"f": v.g_rank, "g": v.self.subgraph.idx_nodes,
